@@ -4,5 +4,7 @@ package auth
 
 // VerifC04Subjects returns a copy of subjectsFromLogin in append order.
 func (auth *OidcAuthConsumer) VerifC04Subjects() []string {
+	auth.mu.RLock()
+	defer auth.mu.RUnlock()
 	return append([]string(nil), auth.subjectsFromLogin...)
 }
